@@ -49,6 +49,27 @@ def digest_tables():
     for t in (pyubx2.UBX_PAYLOADS_GET, pyubx2.UBX_PAYLOADS_SET, pyubx2.UBX_PAYLOADS_POLL, core.UBX_MSGIDS,
               core.UBX_CLASSES, core.ATTTYPE, cdb.UBX_CONFIG_DATABASE, cdb.UBX_CONFIG_STORSIZE, VARIANTS):
         walk(t)
+    # every other piece of module-level or class-level data of the package (caches, memos, counters ...)
+    import sys
+    import types
+    for mname in sorted(m for m in sys.modules if m == "pyubx2" or m.startswith("pyubx2.")):
+        mod = sys.modules[mname]
+        for k in sorted(vars(mod)):
+            v = vars(mod)[k]
+            if k.startswith("__") or isinstance(v, (types.ModuleType, types.FunctionType, type)) or callable(v):
+                continue
+            if isinstance(v, (dict, list, set, tuple, bytes, str, int, float, bool, bytearray, type(None))):
+                h.update((mname + "." + k).encode())
+                try:
+                    walk(sorted(v) if isinstance(v, set) else v)
+                except TypeError:
+                    walk(repr(v))
+    for cls in (pyubx2.UBXMessage, pyubx2.UBXReader, pyubx2.SocketWrapper):
+        for k in sorted(vars(cls)):
+            v = vars(cls)[k]
+            if not k.startswith("__") and isinstance(v, (dict, list, set, tuple, bytes, str, int, float, bool)):
+                h.update((cls.__name__ + "." + k).encode())
+                walk(sorted(v) if isinstance(v, set) else v)
     return h.hexdigest()
 
 
@@ -72,6 +93,62 @@ class FdCapture:
         self.tmp.seek(0)
         self.data = self.tmp.read()
         self.tmp.close()
+
+
+def order_independence(ctx):
+    """All (mode, definition) probes evaluated in FRESH interpreters in three different orders: every result
+    must be the same in each order, and equal to the (stateless) model's."""
+    import json
+    import subprocess
+    rng = ctx.rng
+    cmds = []
+    for mode, name, d, key in msggen.all_defs():
+        for cnt in (1, 2):
+            g = msggen.Gen(rng, d, mode, name, key, cnt, "random")
+            cmds.append("PARSE %d 1 1 %s" % (mode, msggen.frame(key, g.payload()).hex()))
+        base = {"type": key[2]} if len(key) == 3 else {}
+        nm = sweep.names_of(d, True)
+        kw = dict(base)
+        if nm:
+            kw[nm[0]] = 0
+        if kw:
+            cmds.append(sweep.build_cmd(key, mode, True, kw))
+    path = os.path.join(common.workdir(), "probes.txt")
+    with open(path, "w") as f:
+        f.write("\n".join(cmds) + "\n")
+    runs = {}
+    for seed in (0, -1, 1 + ctx.seed):
+        p = subprocess.run([common.PY, os.path.join(common.VERIF, "harness", "probe_runner.py"), path, str(seed)],
+                           stdout=subprocess.PIPE, stderr=subprocess.PIPE, timeout=900)
+        try:
+            runs[seed] = json.loads(p.stdout.decode())
+        except Exception:  # pylint: disable=broad-except
+            ctx.notes.append("probe_runner failed: " + p.stderr.decode()[-500:])
+            ctx.disagreements.append({"cmd": "<probe_runner>", "model": "", "impl": "failed", "label": "PROBE"})
+            return
+    ref = runs[0]
+    for seed, r in runs.items():
+        for i, c in enumerate(cmds):
+            if r[str(i)] != ref[str(i)]:
+                ctx.fail("order-dependent", {"cmd": c[:400], "order_seed": seed},
+                         "the same result whatever was processed before", "differs between processing orders: %s | %s" % (ref[str(i)][:150], r[str(i)][:150]))
+                break
+    ctx.evaluations += 3 * len(cmds)
+    ctx.count("order_probes", len(cmds))
+    # and against the model
+    try:
+        mout = common.run_model(cmds, shards=16)
+    except Exception as e:  # pylint: disable=broad-except
+        ctx.notes.append("model not runnable: %r" % (e,))
+        return
+    for i, (c, mo) in enumerate(zip(cmds, mout)):
+        if mo == "RAISE Other":
+            continue
+        a = impl.canon_model_line(mo)
+        for seed, r in runs.items():
+            if r[str(i)] != a:
+                ctx.disagreements.append({"cmd": c[:2000], "model": mo[:1000], "impl": r[str(i)][:1000], "label": "PROBE-ORDER"})
+                break
 
 
 def sample_messages(ctx):
@@ -204,5 +281,6 @@ def run(ctx):
             bad = [c for c, a, b in zip(probes, out, fresh) if a != b][0]
             ctx.fail("thread-dependent", {"cmd": bad[:300], "thread": t}, "same result as single-threaded", "differs")
     ctx.evaluations += 8 * len(probes)
+    order_independence(ctx)
     if digest_tables() != d0:
         ctx.fail("tables-mutated", {"op": "DIGEST"}, "tables unchanged", "digest differs")
